@@ -178,6 +178,22 @@ def clause_permissions(prog, rep):
         # AlreadyExists is told apart
         rep.check(any(True for _ in f.aggregates("FileCreationOutcome", "AlreadyExisted")), "permissions", "already-existed-outcome",
                   "an existing file is reported as AlreadyExisted", "precreate no longer reports AlreadyExisted")
+    # directories: whatever creates one (create_dir / create_dir_all / DirBuilder::create) restricts it before returning Ok
+    mk = [c for g in prog.nontest_fns(SQ) for c in g.live_calls()
+          if (c.name in ("create_dir", "create_dir_all") and (c.krate or "") == "std") or (c.name == "create" and last_seg(c.self_adt) == "DirBuilder")]
+    rep.floor("permissions", "directory-creating calls", len(mk), 1)
+    for c in mk:
+        g = c.fn
+        cb = frozenset(x.bb for x in g.live_calls() if chmod.call(x))
+        # the builder form may carry the mode itself (DirBuilderExt::mode(0o700))
+        with_mode = c.name == "create" and any(m_.name == "mode" and g.dominates(m_.bb, c.bb) and len(m_.args) > 1 and
+                                               isinstance(m_.args[1].get("c"), dict) and isinstance(m_.args[1]["c"].get("int"), int)
+                                               and m_.args[1]["c"]["int"] & 0o077 == 0 for m_ in g.live_calls())
+        esc = "to" in c.t and A.ok_return_reachable(g, c.t["to"], cb)
+        rep.check(with_mode or (bool(cb) and not esc), "permissions", "chmod-after-mkdir/%s" % prog.fns.get(g.root, g).name,
+                  "a directory created for the database is restricted to its owner before the creating function returns Ok",
+                  "%s can create the database's directory (std::fs::%s) and return Ok without restricting it to the owner: the directory "
+                  "holding the database is left with default (umask) permissions" % (prog.fns.get(g.root, g).label(), c.name), c.loc())
     # opening the storage re-applies permissions to the db file and its sidecars on every Ok path
     ctor = [f for f in prog.nontest_fns(SQ) if any(c.name.startswith("open") and last_seg(c.self_adt) == "Connection" for t in [f] for c in [] )]
     news = [f for f in prog.nontest_fns(SQ) if last_seg(f.self_adt) == "MdkSqliteStorage" and f.is_pub() and f.name.startswith("new")]
